@@ -2,6 +2,7 @@ package main
 
 import (
 	"fmt"
+	"go/token"
 	"regexp"
 	"sort"
 	"strings"
@@ -226,6 +227,62 @@ func propC13(c *Check) {
 					if !bad {
 						c.Held("R3", "locking-index-cleared status→"+to+" @ "+key, p.InstrPos(lr[0].Call), "Locking.Remove in every iteration over the record's coins, no Locking.Set on the way")
 					}
+				}
+			}
+		}
+		// completeness: a record whose ranking entry was removed gets a new one before the function moves on (next
+		// record / success exit), unless it leaves {Pending,Active} or its power is zero on that path — otherwise an
+		// eligible validator with positive power drops out of the ranking and a weaker one keeps its seat
+		if !isGenesis && key != "x/locking/keeper.Keeper.EndBlocker" {
+			zeroPower := regexp.MustCompile(`^\(0 == [^()]*Power[^()]*\)$|^\(0 == (mix|φ)\{.*Power.*\}\)$|^\([^()]*Power[^()]* <= 0\)$`)
+			for i, rm := range removes {
+				var avoidI []ssa.Instruction
+				for _, s := range sets {
+					avoidI = append(avoidI, s.Call)
+				}
+				for _, w := range vf.ts.Writes() {
+					if w.To&ranked == 0 {
+						avoidI = append(avoidI, w.Store)
+					}
+				}
+				avoidE := edgeSet(p.MatchEdges(f, zeroPower))
+				if ra, ok := recordOfPowerKey(rm.Args[0]); ok {
+					// edges on which the record is known not to be Pending/Active: no entry is owed
+					for _, b := range f.Blocks {
+						for i := range b.Succs {
+							if st, ok := vf.ts.EdgeOut(b, i, ra); ok && st&ranked == 0 {
+								avoidE[edgeKey{b: b, i: i}] = true
+							}
+						}
+						// a branch on a boolean flag that was computed from the status (isCandidate := s == Active || s == Pending)
+						if iff, ok := b.Instrs[len(b.Instrs)-1].(*ssa.If); ok && len(b.Succs) == 2 {
+							cnd, neg := iff.Cond, false
+							for {
+								if u, ok := cnd.(*ssa.UnOp); ok && u.Op == token.NOT {
+									cnd, neg = u.X, !neg
+									continue
+								}
+								break
+							}
+							if ph, ok := cnd.(*ssa.Phi); ok {
+								for i := 0; i < 2; i++ {
+									val := (i == 0) != neg
+									if st, ok := vf.loaded.FlagStatus(ph, val, ra); ok && st&ranked == 0 {
+										avoidE[edgeKey{b: b, i: i}] = true
+									}
+								}
+							}
+						}
+					}
+				}
+				rmCall := rm.Call
+				exits := successTargets(f)
+				tgt := func(in ssa.Instruction) bool { return exits(in) || in == ssa.Instruction(rmCall) }
+				ps := &PathSearch{Fn: f, From: rmCall, AvoidInstr: instrSet(avoidI), AvoidEdges: avoidE, IsTarget: tgt}
+				if t, path := ps.Find(); t != nil {
+					c.Violated("R2", fmt.Sprintf("reinserted-after PowerRanking.Remove#%d @ %s", i, key), p.InstrPos(rmCall), "the ranking entry is removed and a path continues without a new entry although the record stays Pending/Active and its power is not known to be zero", p.describePath(path)...)
+				} else {
+					c.Held("R2", fmt.Sprintf("reinserted-after PowerRanking.Remove#%d @ %s", i, key), p.InstrPos(rmCall), "re-inserted, or the record leaves {Pending,Active}, or its power is zero")
 				}
 			}
 		}
